@@ -83,11 +83,16 @@ func (f *flakyFile) GetAttr(m p9.AttrMask) (p9.QID, p9.AttrMask, p9.Attr, error)
 
 // pageThrough lists d page by page.  tolerate: number of failed Readdir calls
 // that are simply repeated (transient backend errors injected by the caller).
-func pageThrough(d p9.File, count uint32, limit int, tolerate int) (p9.Dirents, int, string) {
+func pageThrough(d p9.File, count uint32, limit int, tolerate int, afterFirst ...func(p9.Dirents)) (p9.Dirents, int, string) {
 	var all p9.Dirents
 	off := uint64(0)
 	calls := 0
+	hooked := false
 	for {
+		if len(all) > 0 && !hooked && len(afterFirst) > 0 {
+			hooked = true
+			afterFirst[0](all)
+		}
 		calls++
 		if calls > limit {
 			return all, calls, fmt.Sprintf("the paging loop did not terminate after %d calls (%d entries so far)", calls, len(all))
@@ -292,8 +297,36 @@ func runC19(rcx *RunCtx) {
 		// transient errors of one mount's GetAttr while listing: a failed
 		// Readdir call is repeated, a successful one must be right
 		flaky = flakyArm
-		all, ncalls, problem := pageThrough(dir, count, len(truth)+8, flakyArm)
+		// localfs: entries the listing has not reached yet are unlinked after
+		// the first page.  A call that trips over a vanished entry may fail
+		// (and is repeated); the files that stay are each listed once.
+		removed := map[string]bool{}
+		tol := flakyArm
+		var hook []func(p9.Dirents)
+		if (backend == 0 || backend == 4) && n >= 10 && simrt.Choose(3) == 0 {
+			tol = 4
+			hook = append(hook, func(seen p9.Dirents) {
+				have := map[string]bool{}
+				for _, d := range seen {
+					have[d.Name] = true
+				}
+				k := 0
+				for _, s := range names {
+					if !have[s] {
+						if k++; k%3 == 0 {
+							os.RemoveAll(filepath.Join(tmp, s))
+							removed[s] = true
+						}
+					}
+				}
+				rcx.Count("entries_unlinked_during_listing", len(removed))
+			})
+		}
+		all, ncalls, problem := pageThrough(dir, count, len(truth)+12, tol, hook...)
 		flaky = 0
+		for s := range removed {
+			delete(truth, s) // may or may not be listed (at most once, checked below)
+		}
 		pages = ncalls
 		if problem != "" {
 			find("paging", "loop", "%s listing %d entries with count %d: %s", bname, len(truth), count, problem)
@@ -312,7 +345,7 @@ func runC19(rcx *RunCtx) {
 			if k > 1 {
 				dup = append(dup, s)
 			}
-			if !truth[s] {
+			if !truth[s] && !removed[s] {
 				extra = append(extra, s)
 			}
 		}
@@ -372,6 +405,55 @@ func runC19(rcx *RunCtx) {
 				f.Close()
 			}
 		}
+		// a mount listed from inside, twice: the second listing is as right
+		// as the first (what a listing hands out is the caller's)
+		if backend == 2 || backend == 3 {
+			for round := 0; round < 2 && len(rcx.Findings) == 0; round++ {
+				_, sd, err := root.Walk(append(append([]string{}, walkNames...), "zz-static"))
+				if err != nil {
+					find("setup", "walk-mount", "walking into the static mount failed: %v", err)
+					break
+				}
+				if e != nil {
+					e.Hold(sd)
+				}
+				_, sd2, err := sd.Walk(nil)
+				if err != nil {
+					find("setup", "clone-mount", "%v", err)
+					break
+				}
+				if e != nil {
+					e.Hold(sd2)
+				}
+				if _, _, err := sd2.Open(p9.ReadOnly); err != nil {
+					find("setup", "open-mount", "opening the static mount failed: %v", err)
+					break
+				}
+				ents, _, problem := pageThrough(sd2, 4000, 12, 0)
+				if problem != "" || len(ents) != 1 || ents[0].Name != "inside" {
+					find("listing-wrong", "mount", "%s: listing %d of the static mount: %v %s", bname, round+1, ents, problem)
+					break
+				}
+				qs, f, err := sd.Walk([]string{"inside"})
+				if err != nil {
+					find("entry-not-walkable", "mount", "%v", err)
+					break
+				}
+				if e != nil {
+					e.Hold(f)
+				}
+				q, _, _, err := f.GetAttr(p9.AttrMask{Mode: true, INo: true})
+				if err != nil || len(qs) != 1 || qs[0] != ents[0].QID || q != ents[0].QID {
+					find("qid-mismatch", "mount", "%s: listing %d of the static mount gives %q QID %v, Walk reports %v and GetAttr %v (%v)", bname, round+1, ents[0].Name, ents[0].QID, qs, q, err)
+				}
+				rcx.Count("mount_listings", 1)
+				if direct {
+					f.Close()
+					sd2.Close()
+					sd.Close()
+				}
+			}
+		}
 		rcx.Count("entries_listed", len(all))
 		rcx.Count("entries_cross_checked", checked)
 		rcx.Count("readdir_calls", ncalls)
@@ -400,7 +482,7 @@ func init() {
 		Desc: "directory listing: every entry exactly once over localfs/staticfs/composefs, QIDs agree with Walk/GetAttr",
 		Run:  runC19,
 		Quick: 12000, Thorough: 300000, QuickSecs: 60, ThorSecs: 1200,
-		Rule:  "backends in rotation: localfs on a temporary directory (files, subdirectories, symlinks), staticfs, composefs flat (files + a static mount + a localfs mount whose directory is replaced by a new one of the same name before listing in half of the runs + a mount whose GetAttr fails 0-2 times during the listing, failed Readdir calls being repeated) and nested (the same below a WithDir mount), each through real client + real server, plus localfs directly on the File; directory sizes {0,1,2,3,10,100,1000} (5000 occasionally in thorough), name lengths 1..255, count in {one entry, +1, two entries, three+7, 512, 4000, msize-24, msize, 2*msize, 1 MiB}, msize {4096, 8192, 65536}, versions 0..7. Oracle: the paging loop 'offset := Offset of the last entry' terminates within n+8 calls and the multiset of names equals the ground truth (each exactly once); each (sampled, for large listings) entry's QID and type equal what Walk(name) and GetAttr on the result report. A sequence/state property, not a schedule property; the simulator supplies the real stack and determinism.",
+		Rule:  "backends in rotation: localfs on a temporary directory (files, subdirectories, symlinks; in a third of the larger listings every third entry not yet listed is unlinked after the first page: failed calls are repeated, the files that stay are each listed once), staticfs, composefs flat (files + a static mount + a localfs mount whose directory is replaced by a new one of the same name before listing in half of the runs + a mount whose GetAttr fails 0-2 times during the listing, failed Readdir calls being repeated; the static mount also listed from inside, twice) and nested (the same below a WithDir mount), each through real client + real server, plus localfs directly on the File; directory sizes {0,1,2,3,10,100,1000} (5000 occasionally in thorough), name lengths 1..255, count in {one entry, +1, two entries, three+7, 512, 4000, msize-24, msize, 2*msize, 1 MiB}, msize {4096, 8192, 65536}, versions 0..7. Oracle: the paging loop 'offset := Offset of the last entry' terminates within n+8 calls and the multiset of names equals the ground truth (each exactly once); each (sampled, for large listings) entry's QID and type equal what Walk(name) and GetAttr on the result report. A sequence/state property, not a schedule property; the simulator supplies the real stack and determinism.",
 		Assume: []string{"the temporary directory is not modified while it is listed"},
 		Real:   []string{"fsimpl/localfs (real syscalls on a temp dir)", "fsimpl/staticfs", "fsimpl/composefs", "fsimpl/readdir", "fsimpl/qids", "p9.Server treaddir/rreaddir encode", "p9.Client"},
 		Stub:   []string{"transport (simnet + relay)"},
